@@ -1117,7 +1117,16 @@ class Molecules:
         if self.count() == 0:
             feat = other.features
         else:
-            feat = pl.concat([self.features, other.features], how="diagonal")
+            other_feat = other.features
+            if other_feat.width == 0:
+                # a frame without columns has no rows; the appended molecules get null features
+                other_feat = pl.DataFrame(
+                    {
+                        name: pl.Series(name, [None] * other.count(), dtype=dtype)
+                        for name, dtype in self.features.schema.items()
+                    }
+                )
+            feat = pl.concat([self.features, other_feat], how="diagonal")
             if len(feat.columns) != len(self.features.columns):
                 extra = set(other.features.columns) - set(self.features.columns)
                 raise ValueError(
